@@ -72,6 +72,13 @@ func c10Oracle(p *Plan) *Verdict {
 	if st.Rejected != "" || st.Outcome == nil || len(rc.Client.Msgs) != 1 || len(rc.Backend.Resp.Msgs) != 1 {
 		return v
 	}
+	if cl := rc.Backend.Resp.DeclareCL; strings.HasPrefix(cl, "=") {
+		var declared int
+		fmt.Sscanf(cl[1:], "%d", &declared)
+		if st.respLen <= declared {
+			return v // the body is not longer than declared: an over-stated length is C09's subject, not a limit question
+		}
+	}
 	v.Nontrivial = true
 	if st.ServePanic != "" {
 		v.violate("panic", facts, "ServeHTTP panicked: %s at %s", st.ServePanic, st.ServePanicStack)
@@ -144,6 +151,8 @@ func c10Oracle(p *Plan) *Verdict {
 			}
 		case o.sawSuccess() && reqDelivered && respDelivered:
 			v.probe("exceeds-streamed")
+		case o.Kind == "error" && o.Err != nil && strings.HasPrefix(rc.Backend.Resp.DeclareCL, "="):
+			v.probe("exceeds-and-lied-about-length") // two faults at once: any error will do, the accounting below is what counts
 		case o.Kind == "error" && o.Err != nil:
 			v.probe("exceeds-other-error")
 			f := copyFacts(facts)
@@ -204,7 +213,7 @@ func init() {
 		ID:    "C10",
 		Level: "exploration",
 		Rule: "seeded single-RPC scenarios with a per-service limit L drawn from 16 B .. 1 MiB and one large message (request or response direction) whose size is placed at L/2, L-16, L-1, L, L+1, L+16, 2L, 10L, 100L " +
-			"with zero / text / random fill (compression ratios from 1:1 to about 1000:1 through real gzip and zlib), over every client form x target x codec pair x compression pair (re-frame, re-encode, buffer-to-measure, unary buffering). " +
+			"(a quarter of the response cases under a Content-Length that understates the body) with zero / text / random fill (compression ratios from 1:1 to about 1000:1 through real gzip and zlib), over every client form x target x codec pair x compression pair (re-frame, re-encode, buffer-to-measure, unary buffering). " +
 			"oracle: sizes of every representation on the path are computed in-process; all fit => the RPC must not fail with resource_exhausted; some exceed => it fails with resource_exhausted (and the message is not handed over) or was streamed through intact; " +
 			"always: no pooled buffer grows by more than 8L+64KiB during the RPC and no single decompression emits more than that (buffer-pool hook and decompressor wrapper: deterministic accounting, not RSS). " +
 			"distinct = (direction, form>target, request path, response path, L, schedule hash); non-trivial = transcoder in the data path and a response produced",
@@ -244,6 +253,10 @@ func init() {
 			}
 			rc.Client.DeclareCL = Pick(c, "", "none", "exact")
 			rc.Backend.Resp.DeclareCL = Pick(c, "", "", "exact")
+			if dir == "response" && c.Prob(0.25) {
+				// a handler that declares less than it writes: the declaration must not stand in for the limit
+				rc.Backend.Resp.DeclareCL = fmt.Sprintf("=%d", Pick(c, 1, 8, maxInt(L/2, 1), L)) // (checked against the rendered body in the oracle)
+			}
 			p.Note = dir
 			p.Pool = PoolPlan{Policy: "lifo"}
 			return p
